@@ -73,7 +73,10 @@ def _divergent_opcodes():
 
 def generate(batch: str, r: Rng, idx: int, tier: str) -> Dict[str, Any]:
     n = r.choice([10, 20, 40, 60])
-    code, starts = core.gen_program(r.child("prog"), n, canon=True,
+    # one run in eight places the program across the end of a 64 KiB page (page-local jumps and calls there take
+    # their page from the instruction's own address)
+    base = 0x0FF90 + 8 * r.child("base").below(12) if r.child("base?").chance(1, 8) else core.CODE_LO
+    code, starts = core.gen_program(r.child("prog"), n, canon=True, base=base,
                                     avoid=_divergent_opcodes() if batch == "lock-tail" else ())
     state = core.gen_state(r.child("state"))
     if r.chance(1, 4):
@@ -97,8 +100,12 @@ def generate(batch: str, r: Rng, idx: int, tier: str) -> Dict[str, Any]:
             else:
                 faults.append([at, "transplant"])
         faults.sort(key=lambda f: f[0])
-    return {"kind": "lockstep", "exec": "py+rs-core", "code": code, "starts": starts, "state": state, "steps": steps,
-            "faults": faults}
+    state["regs"]["PC"] = base
+    scn = {"kind": "lockstep", "exec": "py+rs-core", "code": code, "starts": starts, "state": state, "steps": steps,
+           "faults": faults}
+    if base != core.CODE_LO:
+        scn["base"] = base
+    return scn
 
 
 def _py_apply_fault(emu, bus, f, scn, cum_writes):
@@ -121,6 +128,8 @@ def _py_apply_fault(emu, bus, f, scn, cum_writes):
 
 
 def execute(scn: Dict[str, Any]) -> Dict[str, Any]:
+    lo = scn.get("base", core.CODE_LO)
+    hi = lo + (core.CODE_HI - core.CODE_LO)
     # ---- Python replica, segment by segment
     emu, bus = core.new_py_core(scn)
     py: List[list] = []
@@ -133,7 +142,7 @@ def execute(scn: Dict[str, Any]) -> Dict[str, Any]:
     while done < scn["steps"]:
         nxt = faults[fi][0] if fi < len(faults) else scn["steps"]
         seg = max(0, min(nxt, scn["steps"]) - done)
-        recs = core.py_run(emu, bus, seg, stop_at=core.EXCLUDED, block_limit=BLOCK_LIMIT, features=True) if seg else []
+        recs = core.py_run(emu, bus, seg, lo=lo, hi=hi, stop_at=core.EXCLUDED, block_limit=BLOCK_LIMIT, features=True) if seg else []
         for rec in recs:
             for a, v in rec[13]:
                 cum[a] = v
@@ -164,7 +173,7 @@ def execute(scn: Dict[str, Any]) -> Dict[str, Any]:
     while done < scn["steps"]:
         nxt = faults[fi][0] if fi < len(faults) else scn["steps"]
         seg = max(0, min(nxt, scn["steps"]) - done)
-        pending.append(["c.run", slot, seg, core.CODE_LO, core.CODE_HI])
+        pending.append(["c.run", slot, seg, lo, hi])
         out = host().call(pending) if first else host().call_keep(pending)
         first = False
         recs = out[-1]
@@ -284,6 +293,8 @@ def _circumstance(scn, a, b, prev, op: int, bs: List[int], field: str) -> Dict[s
         pw, rw = dict(map(tuple, a[13])), dict(map(tuple, b[13]))
         if set(pw) - {0x1000FB} == set(rw) - {0x1000FB} and all(pw[k] == rw[k] or pw[k] == (rw[k] & 3) for k in rw if k in pw):
             out["pattern"] = "f_low2"
+    if op == 0x06 and field == "PC" and (a[0] & 0xFFFF) == 0xFFFF:
+        out["pattern"] = "ret_last_byte_of_page"
     if op in (0xB4, 0xB5, 0xB6) and len(bs) >= 2:
         sel = bs[-1] if len(bs) == 2 else bs[(1 if bs[0] in core.PRES else 0) + 1]
         if (sel & 7) == (op & 7) and (sel >> 4) in (2, 3):
